@@ -31,8 +31,8 @@ _REAL_LOCK = threading.Lock
 _REAL_RLOCK = threading.RLock
 
 
-class Deadlock(Exception):
-    pass
+class Deadlock(BaseException):
+    """BaseException: must unwind through library code that contains ordinary exceptions."""
 
 
 class Sched:
@@ -151,7 +151,7 @@ class SchedLock:
             for w in self.waiters:
                 s.state[w] = "ready"
             self.waiters.clear()
-            if s.me() is not None:
+            if s.me() is not None and self.reg.yield_on_release:
                 s.yield_point()
 
     def locked(self):
@@ -173,6 +173,9 @@ class Registry:
     def __init__(self):
         self.locks = []
         self.sched = None
+        # callback-level runs record each shared operation right after it returns: no pre-emption between the
+        # release of the component's lock and that record, or the log order would not be the lock order
+        self.yield_on_release = True
 
 
 class lock_factory:
@@ -194,6 +197,19 @@ class lock_factory:
 
 _ACTIVE = [None]
 _INSTALLED = [False]
+CURRENT = [None]  # the schedule in progress, for explicit yield points in harness callbacks
+
+
+def point():
+    """Explicit yield point (harness callbacks of policy-level thread runs)."""
+    s = CURRENT[0]
+    if s is not None:
+        s.yield_point()
+
+
+def me():
+    s = CURRENT[0]
+    return s.me() if s is not None else None
 
 
 def _on_line(code, line):
@@ -241,11 +257,18 @@ def build(make):
     return obj, reg, how
 
 
-def run_schedule(make, programs, prefix=(), rng=None, watchdog_s=20.0):
-    """Run one schedule of `programs` (list of lists of callables obj -> result) on a fresh component."""
-    install_monitor()
+def run_schedule(make, programs, prefix=(), rng=None, watchdog_s=20.0, line_level=True, preempt_p=0.3):
+    """Run one schedule of `programs` (list of lists of callables obj -> result) on a fresh component.
+
+    line_level=True: pre-emption before every source line of the redress package (component races).
+    line_level=False: pre-emption only at lock operations of the shared components and at explicit
+    `point()` calls in harness callbacks (whole policy calls racing on shared components).
+    """
+    if line_level:
+        install_monitor()
     obj, reg, how = build(make)
-    s = Sched(len(programs), prefix, rng)
+    reg.yield_on_release = line_level
+    s = Sched(len(programs), prefix, rng, preempt_p)
     reg.sched = s
     results = [[] for _ in programs]
     errors = []
@@ -277,12 +300,14 @@ def run_schedule(make, programs, prefix=(), rng=None, watchdog_s=20.0):
         t.start()
     for _ in ths:
         ready.acquire()
-    _ACTIVE[0] = s
+    _ACTIVE[0] = s if line_level else None
+    CURRENT[0] = s
     first = s.choose()
     s.cur = first
     s.sems[first].release()
     ok = s.done.acquire(timeout=watchdog_s)
     _ACTIVE[0] = None
+    CURRENT[0] = None
     if s.deadlock or not ok:
         s.deadlock = s.deadlock or False
         for sem in s.sems:
